@@ -395,6 +395,161 @@ def confirm_stuck(vh, meta, u, seed):
     return None
 
 
+# ------------------------------------------------------------------------------------------------ the callers' protocol
+
+USE_PROPS = ["UseExclusive", "DeployedHeld", "NoLeak", "BlockedNeverDeployed", "ReleaseOwn"]
+
+
+def use_cfg(u, impl, invariants=(), properties=(), view=True, export=False):
+    t = consts(u, None, None, 0, 0, False) + '  Manifests <- UseManifests\n  Impl = "%s"\nSPECIFICATION USpec\n' % impl
+    if view:
+        t += "VIEW uview\n"
+    if invariants:
+        t += "INVARIANTS " + " ".join(invariants) + "\n"
+    if properties:
+        t += "PROPERTIES " + " ".join(properties) + "\n"
+    if export:
+        t += "ACTION_CONSTRAINT UEdge\n"
+    return t + "CHECK_DEADLOCK FALSE\n"
+
+
+def use_j1_and_scripts(u, stats):
+    """HostnameUse.tla: the intended variant satisfies everything; the as-found model satisfies NoLeak,
+    BlockedNeverDeployed, ReleaseOwn and violates UseExclusive and DeployedHeld (the finding, stated on the model);
+    the as-found run also exports one stimulus script per transition of the model."""
+    def tlc(cfg, workers=2):
+        return vlib.tlc(SPECDIR, "MCHostnameUse", "U.cfg", workers=workers, timeout=1500, heap=HEAP, deadlock=False,
+                        extra_files={"U.cfg": cfg})
+    r = tlc(use_cfg(u, "intended", ["Safe", "UseExclusive", "DeployedHeld"], ["ReleaseOwnHolds"]))
+    vlib.tlc_require_ok(r, "J1 use layer, intended")
+    stats["j1"].append({"config": "use layer, intended variant, %d deployments" % len(u["deps"]), "distinct": r.distinct,
+                        "generated": r.generated, "depth": r.depth, "wall_s": round(r.wall_s, 1)})
+    model = {}
+    for inv in ("UseExclusive", "DeployedHeld"):
+        rv = tlc(use_cfg(u, "asfound", [inv]))
+        model[inv] = "violated" if rv.violated == inv else "holds"
+    r = tlc(use_cfg(u, "asfound", ["Safe"], ["ReleaseOwnHolds"], export=True), workers=1)
+    vlib.tlc_require_ok(r, "J1 use layer, as found")
+    stats["j1"].append({"config": "use layer, as found, %d deployments (NoLeak, BlockedNeverDeployed, ReleaseOwn)" % len(u["deps"]),
+                        "distinct": r.distinct, "generated": r.generated, "depth": r.depth, "wall_s": round(r.wall_s, 1)})
+    scripts = []
+    for sc in _printed(r.out, "SCRIPT"):
+        scripts.append({"id": "u%d" % len(scripts), "steps": [{"k": x["k"], "d": x["d"], "m": list(x["m"])} for x in sc]})
+    return scripts, model
+
+
+def judge_use(lines, u):
+    """HostnameUseTrace.tla on the recorded use runs: (findings, lines walked)."""
+    chunks, cur, n = [], [], 0
+    for run in split_runs(lines):
+        if cur and n + len(run) > CHUNK_LINES:
+            chunks.append(cur)
+            cur, n = [], 0
+        cur.append(run)
+        n += len(run)
+    if cur:
+        chunks.append(cur)
+
+    def one(runs):
+        flat = [l for r in runs for l in r]
+        d = vlib.scratch("hostname-use-")
+        tp = os.path.join(d, "trace.ndjson")
+        write_ndjson(tp, flat)
+        cfg = consts(u, None, None, 0, 0, False) + '  Manifests <- TraceManifests\n  Impl = "asfound"\nSPECIFICATION UTSpec\nCHECK_DEADLOCK FALSE\n'
+        r = vlib.tlc(SPECDIR, "HostnameUseTrace", "T.cfg", workers=1, timeout=3000, heap=HEAP, deadlock=False,
+                     extra_files={"T.cfg": cfg}, copy_files={"trace.ndjson": tp})
+        shutil.rmtree(d, ignore_errors=True)
+        m = re.search(r'<<"WALKED", (\d+)>>', r.out)
+        if not r.ok or not m or int(m.group(1)) != len(flat):
+            raise vlib.Inconclusive("J3 use: TLC failed or did not walk the trace: %s" % (r.error or r.out[-1500:]))
+        starts, acc = [], 0
+        for run in runs:
+            starts.append(acc)
+            acc += len(run)
+        fs = []
+        for kind, name, l in re.findall(r'<<"(V|DRIFT)", "(\w+)", (\d+), \d+>>', r.out):
+            pos = int(l) - 1
+            k = max(i for i, st in enumerate(starts) if st <= pos)
+            fs.append(Finding(kind, name, runs[k], pos - starts[k]))
+        return fs, len(flat)
+    findings, walked = [], 0
+    with concurrent.futures.ThreadPoolExecutor(max_workers=3) as ex:
+        for fs, n in ex.map(one, chunks):
+            findings += fs
+            walked += n
+    return findings, walked
+
+
+def use_layer(pid, vh, work, seed, quick, stats):
+    """The callers' protocol on the real cluster service. Returns (violations, coverage part)."""
+    u = universe(["f1", "f2", "bx"], ("d1", "d2") if quick else ("d1", "d2", "d3"))
+    scripts, model = use_j1_and_scripts(u, stats)
+    total = len(scripts)
+    if not quick and total > 60000:
+        rnd = random.Random(seed)
+        scripts = rnd.sample(scripts, 60000)
+    up, sp, tp = os.path.join(work, "u_use.json"), os.path.join(work, "use.scripts.ndjson"), os.path.join(work, "use.trace.ndjson")
+    json.dump(u, open(up, "w"))
+    write_ndjson(sp, scripts)
+    rc, out = vlib.run([vh, "hostname", "use", "-universe", up, "-scripts", sp, "-out", tp, "-seed", str(seed)], timeout=3000)
+    if rc != 0:
+        raise vlib.Inconclusive("vh hostname use failed rc=%d: %s" % (rc, out[-2000:]))
+    stat = json.loads(re.search(r"\{.*\}", out).group(0))
+    lines = read_ndjson(tp)
+    findings, walked = judge_use(lines, u)
+    by_id = {s["id"]: s for s in scripts}
+    violations, seen, drift, counts = [], set(), 0, {}
+    first = set()
+    first_line = {}
+    for f in findings:
+        if f.kind == "V":
+            first_line.setdefault((f.run_lines[0]["id"], f.name), f.line_no)
+    for f in findings:
+        if f.kind == "DRIFT":
+            drift += 1
+            if drift <= 10:
+                vlib.log("DRIFT (use) %s at line %d of run %s: %s" % (f.name, f.line_no + 1, f.run_lines[0]["id"],
+                                                                      json.dumps(f.run_lines[f.line_no])))
+            continue
+        key = (f.run_lines[0]["id"], f.name)
+        if key in first:        # a state predicate stays false: the step that made it false is the finding
+            continue
+        first.add(key)
+        if f.name == "UseExclusive" and first_line.get((key[0], "DeployedHeld"), f.line_no + 1) <= f.line_no:
+            # two deployments can share a deployed name only if one of them is deployed with a name it does not hold:
+            # where that happened earlier in the run it is the finding, this is its consequence
+            counts["consequence:UseExclusive"] = counts.get("consequence:UseExclusive", 0) + 1
+            continue
+        bad = f.run_lines[f.line_no]
+        sig = "%s:%s:%s" % (pid, f.name, bad["e"] + ("-" + bad["kind"] if bad.get("kind") else ""))
+        counts[sig] = counts.get(sig, 0) + 1
+        if sig in seen:
+            continue
+        seen.add(sig)
+        sc = by_id[f.run_lines[0]["id"]]
+        detail = "TLC: %s is false after line %d of the run (use of the hostname service by the cluster service): %s\n%s" % (
+            f.name, f.line_no + 1, json.dumps(bad), json.dumps(sc))
+        files = {"trace.ndjson": "".join(json.dumps(l) + "\n" for l in f.run_lines),
+                 "replay.json": json.dumps({"mode": "use", "input": sc, "universe": u, "property": f.name, "seed": seed})}
+        violations.append(vlib.Violation(pid, sig, detail, files))
+    # binding self-test: a deployed name disappears from the logged map of a clean run
+    dirty = {f.run_lines[0]["id"] for f in findings}
+    clean = [r for r in split_runs(lines) if r[0]["id"] not in dirty and any(l["e"] == "deliver" and l["kind"] == "new" and l["held"] for l in r)]
+    st = {"ok": False, "why": "no clean run with a granted first manifest"}
+    if clean:
+        a = [dict(l) for l in clean[len(clean) // 2]]
+        for l in a:
+            if l["e"] == "deliver" and l["kind"] == "new" and l["held"]:
+                l["held"] = l["held"][1:]
+                break
+        fa, _ = judge_use(a, u)
+        st = {"drop_held_name": sorted({f.name for f in fa}), "ok": any(f.kind == "V" and f.name == "DeployedHeld" for f in fa)}
+    cov = {"model": model, "scripts_exported": total, "scripts_replayed": stat.get("runs", 0), "stimuli": stat.get("steps", 0),
+           "trace_lines_walked_by_tlc": walked, "drift_steps": drift, "verdicts_by_signature": counts, "binding_selftest": st,
+           "deployments": len(u["deps"]), "sample": scripts[len(scripts) // 2]}
+    return violations, cov, st["ok"]
+
+
 # ------------------------------------------------------------------------------------------------ the check
 
 def run(pid, tier, seed, replay):
@@ -489,6 +644,9 @@ def run(pid, tier, seed, replay):
         raise j1_err[0]
     stats["j1"] += j1_res
 
+    # ---- the callers' protocol on the real cluster service
+    use_violations, use_cov, use_selftest_ok = use_layer(pid, vh, work, seed, quick, stats)
+
     # ---- verdict
     by_id_seq = {s["id"]: s for s in scripts}
     by_id_conc = {p["id"]: p for p in progs}
@@ -532,13 +690,14 @@ def run(pid, tier, seed, replay):
         if v.signature not in seen:
             seen.add(v.signature)
             violations.append(v)
-    violations = violations[:8]
+    violations = violations[:8] + use_violations
 
     # ---- binding self-test, on a run nothing was found in; without it a clean verdict means nothing
     dirty = {f.run_lines[0]["id"] for f in f_conc}
     selftest = binding_selftest(conc_lines, u_conc, dirty)
-    if not selftest["ok"] and not violations:
-        raise vlib.Inconclusive("binding self-test failed: %s" % json.dumps(selftest))
+    unknown = [v for v in violations if not vlib.known_finding(pid, v.signature)]
+    if not (selftest["ok"] and use_selftest_ok) and not unknown:
+        raise vlib.Inconclusive("binding self-test failed: %s %s" % (json.dumps(selftest), json.dumps(use_cov["binding_selftest"])))
 
     steps = set()
     for l in seq_lines + conc_lines:
@@ -549,9 +708,9 @@ def run(pid, tier, seed, replay):
         "states": sum(j["distinct"] for j in stats["j1"]),
         "transitions": sum(j["generated"] for j in stats["j1"]),
         "configs": stats["j1"],
-        "traces_validated_against_impl": len(split_runs(seq_lines)) + len(split_runs(conc_lines)),
-        "evaluations": seq_stat.get("calls", 0) + conc_stat.get("calls", 0),
-        "trace_lines_walked_by_tlc": s1 + s2,
+        "traces_validated_against_impl": len(split_runs(seq_lines)) + len(split_runs(conc_lines)) + use_cov["scripts_replayed"],
+        "evaluations": seq_stat.get("calls", 0) + conc_stat.get("calls", 0) + use_cov["stimuli"],
+        "trace_lines_walked_by_tlc": s1 + s2 + use_cov["trace_lines_walked_by_tlc"],
         "linearizability": {"histories": len(hs), "with_overlapping_calls": concurrent_runs, "not_linearizable": len(nonlin),
                             "search_states": s3},
         "distinct_nontrivial": {"count": len(steps),
@@ -567,7 +726,8 @@ def run(pid, tier, seed, replay):
                     "burst_programs": sum(1 for p in progs if p["mode"] == "burst"),
                     "programs_with_shutdown": sum(1 for p in progs if p["shutdown_after"] >= 0)},
         "samples": [scripts[n_edge // 3], scripts[-1], progs[0], progs[min(2, len(progs) - 1)]],
-        "drift_steps": drift,
+        "drift_steps": drift + use_cov["drift_steps"],
+        "use_layer": use_cov,
         "stuck_unconfirmed": unconfirmed,
         "runs_not_executed_after_stuck_runs": (len(scripts) - seq_stat.get("runs", 0)) + (len(progs) * reps - conc_stat.get("runs", 0)),
         "binding_selftest": selftest,
@@ -598,6 +758,20 @@ def run_replay(pid, vh, path, seed, t0):
     up, ip, op = os.path.join(d, "u.json"), os.path.join(d, "in.ndjson"), os.path.join(d, "out.ndjson")
     json.dump(u, open(up, "w"))
     write_ndjson(ip, [meta["input"]])
+    if meta["mode"] == "use":
+        rc, out = vlib.run([vh, "hostname", "use", "-universe", up, "-scripts", ip, "-out", op, "-seed", str(meta.get("seed", seed))],
+                           timeout=600)
+        if rc != 0:
+            raise vlib.Inconclusive("vh hostname use failed: " + out[-1500:])
+        fs, _ = judge_use(read_ndjson(op), u)
+        vs = [f for f in fs if f.kind == "V" and f.name == meta["property"]]
+        for f in vs[:3]:
+            vlib.log("replay: %s false after line %d: %s" % (f.name, f.line_no + 1, json.dumps(f.run_lines[f.line_no])))
+        if vs:
+            print("VIOLATION property=%s replay=%s" % (pid, path), flush=True)
+            return 1
+        print("OK property=%s replay (not reproduced)" % pid, flush=True)
+        return 0
     run_vh(vh, "seq" if meta["mode"] == "seq" else "conc", up, ip, op, meta.get("seed", seed), STUCK_TICKS,
            reps=None if meta["mode"] == "seq" else 20)
     lines = read_ndjson(op)
